@@ -18,12 +18,13 @@ Act(o) ==
     [] o.op = "SetEdns" -> SetEdns
     [] o.op = "SetTsig" -> SetTsig(o.arg)
     [] o.op = "Clear" -> Clear
+    [] o.op = "Retemplate" -> Retemplate(o.arg)
     [] o.op = "Finish" -> Finish
     [] OTHER -> FALSE
 Observed(o) == cursor' = o.cursor /\ avail' = o.avail /\ limit' = o.limit /\ last' = o.res /\ fin' = o.fin
 Step(o) == Act(o) /\ Observed(o)
 
-Fresh == cursor' = Header /\ avail' = BufLen /\ limit' = BufLen /\ rrstart' = Header /\ edns' = FALSE /\ tsig' = 0 /\ nrr' = 0 /\ fin' = 0 /\ last' = "ok"
+Fresh == cursor' = Header /\ avail' = BufLen /\ limit' = BufLen /\ rrstart' = Header /\ edns' = FALSE /\ tsig' = 0 /\ nrr' = 0 /\ fin' = 0 /\ last' = "ok" /\ buf' = BufLen
 
 \* the finished octets: a message of the announced length whose counts are the accepted questions / records + OPT + TSIG
 MsgOk(r) ==
@@ -33,7 +34,7 @@ MsgOk(r) ==
                 /\ Len(SelectSeq(d.ar, LAMBDA x : x.type = 250)) = (IF tsig > 0 THEN 1 ELSE 0)
                 /\ (tsig > 0 => d.ar[Len(d.ar)].type = 250))
 
-TInit == /\ cursor = Header /\ avail = BufLen /\ limit = BufLen /\ rrstart = Header /\ edns = FALSE /\ tsig = 0 /\ nrr = 0 /\ fin = 0 /\ last = "ok"
+TInit == /\ cursor = Header /\ avail = BufLen /\ limit = BufLen /\ rrstart = Header /\ edns = FALSE /\ tsig = 0 /\ nrr = 0 /\ fin = 0 /\ last = "ok" /\ buf = BufLen
          /\ i = 1 /\ j = 1 /\ bad = <<>> /\ nbad = 0
 Reject == /\ nbad' = nbad + 1 /\ bad' = IF Len(bad) >= 300 THEN bad ELSE Append(bad, <<i, {"C12"}>>)
           /\ i' = i + 1 /\ j' = 1 /\ Fresh
